@@ -147,7 +147,7 @@ class SQLiteBuilder(SQLBuilder):
             return builder.datetime_add('date', expr, -delta[1])
         return 'datetime(julianday(', builder(expr), ') - ', builder(delta), ')'
     def DATE_DIFF(builder, expr1, expr2):
-        return 'julianday(', builder(expr1), ') - julianday(', builder(expr2), ')'
+        return '(julianday(', builder(expr1), ') - julianday(', builder(expr2), '))'
     def DATETIME_ADD(builder, expr, delta):
         if delta[0] == 'VALUE' and isinstance(delta[1], datetime.timedelta):
             return builder.datetime_add('datetime', expr, delta[1])
@@ -157,7 +157,7 @@ class SQLiteBuilder(SQLBuilder):
             return builder.datetime_add('datetime', expr, -delta[1])
         return 'datetime(julianday(', builder(expr), ') - ', builder(delta), ')'
     def DATETIME_DIFF(builder, expr1, expr2):
-        return 'julianday(', builder(expr1), ') - julianday(', builder(expr2), ')'
+        return '(julianday(', builder(expr1), ') - julianday(', builder(expr2), '))'
     def RANDOM(builder):
         return 'rand()'  # return '(random() / 9223372036854775807.0 + 1.0) / 2.0'
     PY_UPPER = make_unary_func('py_upper')
